@@ -900,6 +900,22 @@ func FieldOf(addr ssa.Value) (*types.Named, string, ssa.Value) {
 	if !ok {
 		return nil, "", nil
 	}
+	// a field whose role was learnt from the function that fills it (vocab: the four bookkeeping lists of AllocTxn
+	// by the primitive that appends to each): renamed, or regrouped into sub-structs of one type used twice
+	if len(fieldAlias) > 0 {
+		if inner, ok := fa.X.(*ssa.FieldAddr); ok {
+			if on := derefNamed(inner.X.Type()); on != nil {
+				if ost, isS := on.Underlying().(*types.Struct); isS {
+					if al, has := fieldAlias[on.Obj().Name()+"."+ost.Field(inner.Field).Name()+"."+st.Field(fa.Field).Name()]; has {
+						return on, al, inner.X
+					}
+				}
+			}
+		}
+		if al, has := fieldAlias[n.Obj().Name()+"."+st.Field(fa.Field).Name()]; has {
+			return n, al, fa.X
+		}
+	}
 	// a field of a grouping struct (an unexported struct type that exists only as one by-value field, named or
 	// embedded, of one other struct): the field belongs to the struct that holds the group
 	if inner, ok := fa.X.(*ssa.FieldAddr); ok && isGroupingStruct(n) {
@@ -909,6 +925,9 @@ func FieldOf(addr ssa.Value) (*types.Named, string, ssa.Value) {
 	}
 	return n, st.Field(fa.Field).Name(), fa.X
 }
+
+// fieldAlias: "Holder.field" or "Holder.outer.inner" -> the vocabulary name of the field (filled by resolveVocab).
+var fieldAlias = map[string]string{}
 
 var groupingMemo = map[*types.Named]int{}
 
